@@ -28,7 +28,8 @@
  *
  * Plan grammar (one directive per line, decimal numbers, hex strings without prefix):
  *   seed <u64>
- *   tty <0|1>
+ *   tty <0|1>                    is stdin a terminal
+ *   tty1 <0|1>, tty2 <0|1>       is stdout / stderr a terminal (default: ask the kernel)
  *   stdin <hex>                  synthetic stdin content ("-" for empty)
  *   path <hex>                   the planned path
  *   file <hex>                   content served for the planned path through a memfd
@@ -68,7 +69,7 @@ static int eof_latched[C_N];
 
 static int active = -1; /* -1 unknown, 0 off, 1 on */
 static uint64_t rng_state = 0x9E3779B97F4A7C15ull;
-static int tty0 = 0;
+static int tty0 = 0, tty1 = -1, tty2 = -1; /* -1: ask the real kernel */
 static unsigned char *sin_buf; static size_t sin_len, sin_pos;
 static char *plan_path; static size_t plan_path_len;
 static unsigned char *file_buf; static size_t file_len; static int have_file;
@@ -135,6 +136,8 @@ static void parse_plan(char *text) {
         if (!w) continue;
         if (!strcmp(w, "seed")) { char *a = strtok_r(NULL, " ", &sp); if (a) rng_state = strtoull(a, NULL, 10); }
         else if (!strcmp(w, "tty")) { char *a = strtok_r(NULL, " ", &sp); if (a) tty0 = atoi(a); }
+        else if (!strcmp(w, "tty1")) { char *a = strtok_r(NULL, " ", &sp); if (a) tty1 = atoi(a); }
+        else if (!strcmp(w, "tty2")) { char *a = strtok_r(NULL, " ", &sp); if (a) tty2 = atoi(a); }
         else if (!strcmp(w, "stdin")) { char *a = strtok_r(NULL, " ", &sp); if (a) sin_buf = unhex(a, &sin_len); }
         else if (!strcmp(w, "path")) { char *a = strtok_r(NULL, " ", &sp); if (a) plan_path = (char *)unhex(a, &plan_path_len); }
         else if (!strcmp(w, "file")) { char *a = strtok_r(NULL, " ", &sp); if (a) { file_buf = unhex(a, &file_len); have_file = 1; } }
@@ -205,10 +208,15 @@ int isatty(int fd) {
     ensure_init();
     static int (*real)(int);
     if (!real) real = (int (*)(int))dlsym(RTLD_NEXT, "isatty");
-    if (!active || fd != 0) return real(fd);
-    logf_("@I fd=0 ret=%d\n", tty0);
-    if (!tty0) errno = ENOTTY;
-    return tty0;
+    if (!active) return real(fd);
+    int ans;
+    if (fd == 0) ans = tty0;
+    else if (fd == 1 && tty1 >= 0) ans = tty1;
+    else if (fd == 2 && tty2 >= 0) ans = tty2;
+    else return real(fd);
+    logf_("@I fd=%d ret=%d\n", fd, ans);
+    if (!ans) errno = ENOTTY;
+    return ans;
 }
 
 /* ---- read -------------------------------------------------------------------- */
